@@ -1,6 +1,6 @@
 (* C12 property theorems (statements only; proofs in C12/Proofs.v, C12/Exact.v). *)
 From Coq Require Import ZArith Arith List Bool Ring Permutation.
-From QV Require Import Base.Sums Base.TN Base.TNExec C12.Model C12.Proofs C12.Exact.
+From QV Require Import Base.Sums Base.TN Base.TNExec C12.Model C12.Proofs C12.Exact C12.PlaqModel C12.PlaqProofs.
 Import ListNotations.
 
 (* ---- bookkeeping half: for EVERY logged plan ------------------------------ *)
@@ -53,6 +53,29 @@ Theorem C12_scheme_cap_untruncating : forall cap p, plan_cap_is cap p = true ->
   scheme_untruncating cap p = plan_untruncating p.
 Proof. exact scheme_cap_untruncating. Qed.
 Print Assumptions C12_scheme_cap_untruncating.
+
+(* ---- plaquette environments: which sites the four sources contribute ------- *)
+(* both coordinate selections of compute_plaquette_environments (rows first,
+   columns first) are exactly the ring of valid lattice sites around the plaquette,
+   for every lattice size, plaquette position and plaquette shape *)
+Theorem C12_plaquette_rows_first_is_ring : forall Lx Ly i0 j0 xb yb c,
+  In c (sel_x_first Lx Ly i0 j0 xb yb) <-> PlaqProofs.ring Lx Ly i0 j0 xb yb c.
+Proof. exact sel_x_first_is_ring. Qed.
+Print Assumptions C12_plaquette_rows_first_is_ring.
+
+Theorem C12_plaquette_columns_first_is_ring : forall Lx Ly i0 j0 xb yb c,
+  In c (sel_y_first Lx Ly i0 j0 xb yb) <-> PlaqProofs.ring Lx Ly i0 j0 xb yb c.
+Proof. exact sel_y_first_is_ring. Qed.
+Print Assumptions C12_plaquette_columns_first_is_ring.
+
+(* the run-time check on an observed plaquette environment certifies that its tensors
+   carry every site of the ring and no site of the plaquette *)
+Theorem C12_env_sites_ok_sound : forall Lx Ly i0 j0 xb yb seen,
+  env_sites_ok Lx Ly i0 j0 xb yb seen = true ->
+  (forall c, PlaqProofs.ring Lx Ly i0 j0 xb yb c -> In c seen)
+  /\ (forall c, In c (plaquette i0 j0 xb yb) -> ~ In c seen).
+Proof. exact env_sites_ok_sound. Qed.
+Print Assumptions C12_env_sites_ok_sound.
 
 (* ---- algebraic half: over an ARBITRARY commutative ring ---------------------- *)
 Section C12.
@@ -140,3 +163,11 @@ Example C12_gauge_example :
   let dims := [(0, 2); (1, 2); (2, 2); (3, 2); (5, 2)] in
   dense dims [A; B; C] [0; 3] = dense dims [AG; GB; C] [0; 3].
 Proof. vm_compute. reflexivity. Qed.
+
+(* 2x2 plaquette at (0,1) of a 3x4 lattice: the ring has 8 sites (both upper corners
+   included); an environment lacking the corner (2,0) is refused *)
+Example C12_plaquette_example :
+  sel_y_first 3 4 0 1 2 2 = [(0, 0); (1, 0); (0, 3); (1, 3); (2, 0); (2, 1); (2, 2); (2, 3)]%Z
+  /\ env_sites_ok 3 4 0 1 2 2 [(0, 0); (1, 0); (0, 3); (1, 3); (2, 0); (2, 1); (2, 2); (2, 3)]%Z = true
+  /\ env_sites_ok 3 4 0 1 2 2 [(0, 0); (1, 0); (0, 3); (1, 3); (2, 1); (2, 2); (2, 3)]%Z = false.
+Proof. vm_compute. repeat split; reflexivity. Qed.
